@@ -77,11 +77,14 @@ class HInst:
 class HGen:
     kind = "gen"
 
-    def __init__(self, qualname, tree, origin, args=()):
+    def __init__(self, qualname, tree, origin, args=(), fi=None, env=None):
         self.qualname = qualname
-        self.tree = tree
+        self.tree = tree            # filled when the generator is run (forced or fused)
         self.origin = origin
         self.args = tuple(args)
+        self.fi = fi
+        self.env = env
+        self.forced = None          # list object holding the produced elements once materialised
 
 
 class State:
@@ -152,6 +155,9 @@ class Interp:
         self.intrinsics = {}
         self.builtin_hooks = {}
         self.closures = {}
+        self.yield_hooks = {}
+        self.fusions = []
+        self.no_fuse = set()
 
     # -- heap ---------------------------------------------------------------------------
     def alloc(self, obj) -> tuple:
@@ -671,12 +677,33 @@ class Interp:
 
     def ev_Yield(self, st, n, tree):
         v = self.ev(st, n.value, tree) if n.value else NONE
-        tree.append(("yield", v, n.lineno))
+        hook = self.yield_hooks.get(self.stack[-1].id) if self.stack else None
+        if hook is not None:
+            hook(v, st, tree, n.lineno)
+        else:
+            tree.append(("yield", v, n.lineno))
         return NONE
 
     def ev_YieldFrom(self, st, n, tree):
         v = self.ev(st, n.value, tree)
-        tree.append(("yieldfrom", v, n.lineno))
+        hook = self.yield_hooks.get(self.stack[-1].id) if self.stack else None
+        g = self.obj(v)
+        if isinstance(g, HGen) and g.fi is not None and g.qualname not in self.no_fuse:
+            # delegate: the inner generator's elements are produced in place
+            def inner(x, gst, gtree, line, is_from=False):
+                if hook is not None:
+                    hook(x, gst, gtree, line, is_from) if is_from else hook(x, gst, gtree, line)
+                else:
+                    gtree.append(("yieldfrom" if is_from else "yield", x, line))
+            self.run_generator(g, st, tree, inner, n)
+            return NONE
+        if hook is not None:
+            try:
+                hook(v, st, tree, n.lineno, True)
+            except TypeError:
+                tree.append(("yieldfrom", v, n.lineno))
+        else:
+            tree.append(("yieldfrom", v, n.lineno))
         return NONE
 
     # comprehensions: one abstract iteration, as a loop node with the element as a segment
@@ -801,9 +828,10 @@ class Interp:
         if k == "propobj":
             return ("opaque", "property object called")
         if k == "builtin":
-            return self.call_builtin(st, f[1], args, kwargs, n, tree)
+            return self.call_builtin(st, f[1], self.force_args(st, args, tree, n), kwargs, n, tree)
         if k == "extname":
             nm = f[1]
+            args = self.force_args(st, args, tree, n)
             if nm in ("typing.cast", "typing_extensions.cast") and len(args) == 2:
                 self._note_cast(n, args[1])
                 return args[1]
@@ -815,6 +843,7 @@ class Interp:
             return ("call", nm, tuple(args), tuple(sorted(kwargs.items())))
         if k == "attr":
             recv, name = f[1], f[2]
+            args = self.force_args(st, args, tree, n)
             o = self.obj(recv)
             if name in self.MUTATORS:
                 tree.append(("mutate", recv, name, tuple(args), line))
@@ -917,6 +946,53 @@ class Interp:
                 st.ext[(ref, nm)] = v
         return ref
 
+    def run_generator(self, g: HGen, st: State, tree: list, hook, node=None):
+        """Execute a generator's body now; every ``yield v`` calls hook(v, generator state, current tree, line)."""
+        fi = g.fi
+        callee = State(env=g.env, ext=st.ext)
+        act = Activation(fi, len(self.stack))
+        if len(self.stack) >= self.MAX_DEPTH or any(a.fi is fi for a in self.stack):
+            tree.append(("extcall", g.qualname, tuple(g.args), getattr(node, "lineno", None)))
+            return
+        self.stack.append(act)
+        self.yield_hooks[act.id] = hook
+        sub: list = []
+        try:
+            out = self.exec_block(fi.node.body, callee, sub)
+        finally:
+            self.stack.pop()
+            self.yield_hooks.pop(act.id, None)
+        g.tree = sub
+        exits = self._merge_exit(out.live, out.ret)
+        if exits is not None:
+            st.ext = exits.ext
+        tree.append(("call", g.qualname, sub, getattr(node, "lineno", None), act.id))
+
+    def force(self, ref, st: State, tree: list, node=None):
+        """Materialise a lazy generator into a list object (its elements in production order)."""
+        g = self.obj(ref)
+        if not isinstance(g, HGen) or g.fi is None:
+            return ref
+        if g.forced is not None:
+            return g.forced
+        L = self.new_list([], node, tree)
+        g.forced = L
+
+        def hook(v, gst, gtree, line, is_from=False):
+            gtree.append(("mutate", L, "extend" if is_from else "append", (v,), line))
+        self.run_generator(g, st, tree, hook, node)
+        return L
+
+    def force_args(self, st, args, tree, node):
+        out = []
+        for a in args:
+            if isinstance(a, tuple) and a and a[0] == "ref" and isinstance(self.obj(a), HGen) and self.obj(a).fi is not None \
+                    and self.obj(a).qualname not in self.no_fuse:
+                out.append(self.force(a, st, tree, node))
+            else:
+                out.append(a)
+        return out
+
     def is_generator(self, fi: FuncInfo) -> bool:
         from .astutil import walk_no_nested_defs
         return any(isinstance(x, (ast.Yield, ast.YieldFrom)) for x in walk_no_nested_defs(fi.node))
@@ -957,6 +1033,9 @@ class Interp:
                 callee.env[p.arg] = self._eval_default(fi, d)
         if a.vararg is not None:
             callee.env[a.vararg.arg] = ("tuple", tuple(pos[len(params):]))
+        if self.is_generator(fi):
+            # lazy: the body runs when the generator is consumed (materialised by list()/extend()/join ..., fused into a for loop)
+            return self.alloc(HGen(q, None, self.origin(n), [callee.env.get(p.arg) for p in params], fi=fi, env=dict(callee.env)))
         act = Activation(fi, len(self.stack))
         self.stack.append(act)
         try:
@@ -974,8 +1053,6 @@ class Interp:
             rv = NONE
         if exits is not None:
             st.ext = exits.ext
-        if self.is_generator(fi):
-            return self.alloc(HGen(q, sub, self.origin(n), [callee.env.get(p.arg) for p in params]))
         tree.append(("call", q, sub, line, act.id))
         if isinstance(rv, tuple) and rv[0] not in ("const", "ref") and fi.node.returns is not None:
             c = self.facts.annotation_class(fi.module, fi.node.returns)
@@ -1318,6 +1395,14 @@ class Interp:
             if a in self._assigned_attrs(s.body):
                 info.setdefault("carried_attr_init", {})[(b, a)] = f.ext[(b, a)]
                 f.ext[(b, a)] = ("phi_attr", lid, b, a)
+        # names carried by enclosing fused consumers (their loop bodies run inside this loop)
+        fz_names = []
+        for fz in self.fusions:
+            for nm in sorted(fz["names"]):
+                if nm in fz["state"].env and nm not in names:
+                    info["carried_init"][nm] = fz["state"].env[nm]
+                    fz["state"].env[nm] = ("phi", lid, nm)
+                    fz_names.append((fz, nm))
         sub: list = []
         if kind == "for":
             self.bind_target(f, s.target, ("elem", lid), lid, it)
@@ -1330,6 +1415,11 @@ class Interp:
             for nm in names:
                 if nm in end.env and end.env[nm] != ("phi", lid, nm):
                     info["carried"][nm] = end.env[nm]
+        for fz, nm in fz_names:
+            v = fz["state"].env.get(nm)
+            if v is not None and v != ("phi", lid, nm):
+                info["carried"][nm] = v
+            fz["state"].env[nm] = ("loopout", lid, nm)
         if out.brk is not None:
             info["break_env"] = {nm: out.brk.env[nm] for nm in sorted(self._assigned_names(s.body)) if nm in out.brk.env}
         tree.append(("loop", lid, sub))
@@ -1361,7 +1451,44 @@ class Interp:
                 return [("tuple", (e[0], e[1])) for e in d.entries]
         return None
 
+    def _fuse_for(self, s, st: State, tree: list, gref) -> Outcome:
+        """``for x in gen(...): body``: the generator's body is executed with the loop body in place of each yield."""
+        g = self.obj(gref)
+        names = self._assigned_names(s.body)
+        fz = {"state": st, "names": names}
+        self.fusions.append(fz)
+
+        def hook(v, gst, gtree, line, is_from=False):
+            if is_from:
+                gtree.append(("yieldfrom", v, line))
+                return
+            st.ext = gst.ext
+            self.bind_target(st, s.target, v)
+            o = self.exec_block(s.body, st, gtree)
+            end = self._merge_exit(o.live, o.cont)
+            if end is not None:
+                st.env, st.ext = end.env, end.ext
+            gst.ext = st.ext
+        try:
+            self.run_generator(g, st, tree, hook, s)
+        finally:
+            self.fusions.pop()
+        return Outcome(live=st)
+
     def st_For(self, s, st, tree):
+        # a loop over a lazy generator of the repository is fused with the generator's body
+        if isinstance(s.iter, ast.Call) and not s.orelse:
+            exits = any(isinstance(x, (ast.Break, ast.Return)) for b in s.body for x in ast.walk(b))
+            if not exits:
+                probe_tree: list = []
+                pst = st.fork()
+                itv = self.ev(pst, s.iter, probe_tree)
+                g = self.obj(itv)
+                if isinstance(g, HGen) and g.fi is not None and g.forced is None and g.qualname not in self.no_fuse:
+                    st.env, st.ext = pst.env, pst.ext
+                    tree.extend(probe_tree)
+                    return self._fuse_for(s, st, tree, itv)
+                # not a generator: evaluate normally below (the probe allocated nothing observable)
         # a loop over a small constant table is unrolled (first-match scans over dispatch tables, opener lists ...)
         has_continue = any(isinstance(n, ast.Continue) for b in s.body for n in ast.walk(b))
         if not has_continue and not s.orelse:
